@@ -11,7 +11,7 @@ import torch
 
 from cirkit.symbolic.circuit import Circuit
 from cirkit.symbolic.dtypes import DataType
-from cirkit.symbolic.initializers import NormalInitializer
+from cirkit.symbolic.initializers import ConstantTensorInitializer, NormalInitializer
 from cirkit.symbolic.layers import (
     CategoricalLayer,
     ConstantValueLayer,
@@ -41,41 +41,53 @@ INPUT_KINDS = {"emb", "catp", "catl", "poly", "const", "clog", "binom"}
 class Refused(Exception):
     """An operator refused (raised) at application time."""
 
-    def __init__(self, exc):
+    def __init__(self, exc, dependent=False):
         super().__init__(repr(exc))
         self.exc = exc
+        self.dependent = dependent    # an operand had been refused already
+
+
+def chart_array(kind, matrix, shape):
+    """complex dyadic matrix (linear domain) -> complex numpy array in the leaf's own domain"""
+    m = np.array(nums.matrix_complex(matrix), dtype=np.complex128).reshape(shape)
+    if kind in LOG_KINDS:
+        with np.errstate(divide="ignore"):
+            m = np.log(m.real).astype(np.complex128)
+    return m
 
 
 class Leaf:
-    def __init__(self, tensor, kind, matrix, shape):
-        self.tensor = tensor          # symbolic TensorParameter
+    def __init__(self, kind, matrices, shape, cplx, init):
         self.kind = kind              # layer kind (decides the chart)
-        self.matrix = matrix          # complex dyadic matrix (linear domain), as emitted by TLC
+        self.matrices = matrices      # one complex dyadic matrix (linear domain) per store version
         self.shape = shape
+        self.cplx = cplx
+        if init == "const":
+            a = chart_array(kind, matrices[0], shape)
+            ini = ConstantTensorInitializer(a if cplx else a.real.copy())
+        else:
+            ini = NormalInitializer()
+        self.tensor = TensorParameter(
+            *shape, initializer=ini, dtype=DataType.COMPLEX if cplx else DataType.REAL)
 
-    def value(self, dtype):
-        m = np.array(nums.matrix_complex(self.matrix), dtype=np.complex128).reshape(self.shape)
-        if self.kind in LOG_KINDS:
-            with np.errstate(divide="ignore"):
-                m = np.log(m.real).astype(np.complex128)
-        t = torch.from_numpy(m)
+    def linear(self, v=1):
+        return np.array(nums.matrix_complex(self.matrices[v - 1]),
+                        dtype=np.complex128).reshape(self.shape)
+
+    def value(self, dtype, v=1):
+        t = torch.from_numpy(chart_array(self.kind, self.matrices[v - 1], self.shape))
         if not dtype.is_complex:
             t = t.real.to(dtype)
         return t.to(dtype)
 
 
-def _tp(shape, cplx):
-    return TensorParameter(
-        *shape, initializer=NormalInitializer(), dtype=DataType.COMPLEX if cplx else DataType.REAL
-    )
-
-
 class Built:
-    """The base circuit of a behaviour, built through the public constructors."""
+    """The base circuits of a behaviour, built through the public constructors."""
 
-    def __init__(self, beh, rho):
+    def __init__(self, beh, rho, init="random"):
         self.beh = beh
         self.rho = rho
+        self.init = init
         self.dom = beh["dom"]
         self.V = len(self.dom)
         self.ids = [rho[v] for v in range(self.V)]
@@ -83,76 +95,90 @@ class Built:
         self.layers = []
         self.leaves = {}
         in_layers = {}
-        store = beh["store"]
-        for i, l in enumerate(beh["layers"]):
+        stores = beh["stores"]
+        nver = len(stores)
+        L = beh["layers"]
+        for i, l in enumerate(L):
             kind = l["kind"]
             K = l["K"]
-            mat = store[i]
-            cplx = bool(mat) and not nums.matrix_is_real(mat)
+            mats = [stores[v][i] for v in range(nver)]
+            cplx = any(bool(m) and not nums.matrix_is_real(m) for m in mats)
             if kind in ("const", "clog"):
                 sc = Scope([])
             elif kind in INPUT_KINDS:
                 sc = Scope([self.ids[l["var"] - 1]])
+
+            def leaf(shape, real_only=False):
+                lf = Leaf(kind, mats, shape, cplx and not real_only, init)
+                self.leaves[i] = lf
+                return lf.tensor
+
             if kind == "emb":
                 N = self.dom[l["var"] - 1]
-                tp = _tp((K, N), cplx)
-                sl = EmbeddingLayer(sc, K, num_states=N, weight=Parameter.from_input(tp))
-                self.leaves[i] = Leaf(tp, kind, mat, (K, N))
+                sl = EmbeddingLayer(sc, K, num_states=N, weight=Parameter.from_input(leaf((K, N))))
             elif kind == "catp":
                 N = self.dom[l["var"] - 1]
-                tp = _tp((K, N), False)
-                sl = CategoricalLayer(sc, K, num_categories=N, probs=Parameter.from_input(tp))
-                self.leaves[i] = Leaf(tp, kind, mat, (K, N))
+                sl = CategoricalLayer(sc, K, num_categories=N,
+                                      probs=Parameter.from_input(leaf((K, N), True)))
             elif kind == "catl":
                 N = self.dom[l["var"] - 1]
-                tp = _tp((K, N), False)
-                sl = CategoricalLayer(sc, K, num_categories=N, logits=Parameter.from_input(tp))
-                self.leaves[i] = Leaf(tp, kind, mat, (K, N))
+                sl = CategoricalLayer(sc, K, num_categories=N,
+                                      logits=Parameter.from_input(leaf((K, N), True)))
             elif kind == "poly":
                 deg = beh["polydeg"]
-                tp = _tp((K, deg + 1), cplx)
-                sl = PolynomialLayer(sc, K, degree=deg, coeff=Parameter.from_input(tp))
-                self.leaves[i] = Leaf(tp, kind, mat, (K, deg + 1))
+                sl = PolynomialLayer(sc, K, degree=deg,
+                                     coeff=Parameter.from_input(leaf((K, deg + 1))))
             elif kind in ("const", "clog"):
-                tp = _tp((K,), cplx)
-                sl = ConstantValueLayer(
-                    K, log_space=(kind == "clog"), value=Parameter.from_input(tp)
-                )
-                self.leaves[i] = Leaf(tp, kind, mat, (K,))
+                sl = ConstantValueLayer(K, log_space=(kind == "clog"),
+                                        value=Parameter.from_input(leaf((K,))))
             elif kind == "sum":
                 H = len(l["ins"])
-                kin = beh["layers"][l["ins"][0] - 1]["K"]
-                tp = _tp((K, H * kin), cplx)
-                sl = SumLayer(kin, K, arity=H, weight=Parameter.from_input(tp))
-                self.leaves[i] = Leaf(tp, kind, mat, (K, H * kin))
+                kin = L[l["ins"][0] - 1]["K"]
+                sl = SumLayer(kin, K, arity=H, weight=Parameter.from_input(leaf((K, H * kin))))
             elif kind == "mix":
                 H = len(l["ins"])
-                tp = _tp((K, H), cplx)
-                w = Parameter.from_unary(MixingWeightParameter((K, H)), tp)
+                w = Parameter.from_unary(MixingWeightParameter((K, H)), leaf((K, H)))
                 sl = SumLayer(K, K, arity=H, weight=w)
-                self.leaves[i] = Leaf(tp, kind, mat, (K, H))
             elif kind == "had":
-                kin = beh["layers"][l["ins"][0] - 1]["K"]
-                sl = HadamardLayer(kin, arity=len(l["ins"]))
+                sl = HadamardLayer(L[l["ins"][0] - 1]["K"], arity=len(l["ins"]))
             elif kind == "kron":
-                kin = beh["layers"][l["ins"][0] - 1]["K"]
-                sl = KroneckerLayer(kin, arity=len(l["ins"]))
+                sl = KroneckerLayer(L[l["ins"][0] - 1]["K"], arity=len(l["ins"]))
             else:
                 raise ValueError(f"unknown layer kind {kind}")
             self.layers.append(sl)
             if l["ins"]:
                 in_layers[sl] = [self.layers[j - 1] for j in l["ins"]]
         self.in_layers = in_layers
-        self.outputs = [self.layers[j - 1] for j in beh["outs"]]
-        self.circuit = Circuit(self.layers, in_layers, self.outputs)
-        self.has_complex = any(not nums.matrix_is_real(m) for m in store if m)
-        self.nonneg = all(nums.matrix_nonneg(m) for m in store if m)
-        self.has_poly = any(l["kind"] == "poly" for l in beh["layers"])
+        self.circuits = []
+        self.reach = []
+        for outs in beh["bases"]:
+            r = self._reach(outs)
+            ls = [self.layers[j - 1] for j in sorted(r)]
+            ins = {sl: v for sl, v in in_layers.items() if sl in set(ls)}
+            self.reach.append(r)
+            self.circuits.append(Circuit(ls, ins, [self.layers[j - 1] for j in outs]))
+        self.circuit = self.circuits[0]
+        allm = [m for st in stores for m in st if m]
+        self.has_complex = any(not nums.matrix_is_real(m) for m in allm)
+        self.nonneg = all(nums.matrix_nonneg(m) for m in allm)
+        self.has_poly = any(l["kind"] == "poly" for l in L)
+
+    def _reach(self, outs):
+        L = self.beh["layers"]
+        seen = set()
+        stack = list(outs)
+        while stack:
+            j = stack.pop()
+            if j in seen:
+                continue
+            seen.add(j)
+            stack.extend(L[j - 1]["ins"])
+        return seen
 
     # ------------------------------------------------------------------ operators
     def apply_ops(self):
-        """Returns the pool: list of Circuit or Refused, index 0 = base circuit."""
-        pool = [self.circuit]
+        """Returns the pool: list of Circuit or Refused; bases first, then operator results."""
+        pool = list(self.circuits)
         for t in self.beh["ops"]:
             pool.append(self._apply(t, pool))
         return pool
@@ -182,21 +208,40 @@ class Built:
             if op == "differentiate":
                 return SF.differentiate(arg(t["a"]), order=t["k"])
         except Refused as r:
-            return r
+            return Refused(r.exc, dependent=True)
         except Exception as e:  # pylint: disable=broad-except
             return Refused(e)
         raise ValueError(f"unknown operator {op}")
 
     # ------------------------------------------------------------------ parameters
-    def load_store(self, compiler, only=None):
+    def write_leaf(self, compiler, i, v, how="copy"):
+        """Write version v of leaf i into its compiled tensor through the registry slice,
+        by an in-place copy or by one SGD step with a crafted gradient."""
+        leaf = self.leaves[i]
+        t, idx = compiler.state.retrieve_compiled_parameter(leaf.tensor)
+        dst = t()
+        new = leaf.value(dst.dtype, v)
+        if how == "sgd" and dst.requires_grad and not dst.dtype.is_complex:
+            ptensor = dst
+            g = torch.zeros_like(ptensor)
+            g[idx] = ptensor.detach()[idx] - new
+            ptensor.grad = g
+            torch.optim.SGD([ptensor], lr=1.0).step()
+            ptensor.grad = None
+            with torch.no_grad():      # remove rounding of old - (old - new)
+                ptensor[idx].copy_(new)
+        else:
+            with torch.no_grad():
+                dst[idx].copy_(new)
+
+    def load_store(self, compiler, ver=None, only=None):
         """Write the model's store into the compiled tensors through the registry slices."""
-        for i, leaf in self.leaves.items():
+        for i in self.leaves:
             if only is not None and i not in only:
                 continue
-            t, idx = compiler.state.retrieve_compiled_parameter(leaf.tensor)
-            with torch.no_grad():
-                dst = t()
-                dst[idx].copy_(leaf.value(dst.dtype))
+            if not compiler.state.has_compiled_parameter(self.leaves[i].tensor):
+                continue
+            self.write_leaf(compiler, i, 1 if ver is None else ver[i])
 
     # ------------------------------------------------------------------ inputs
     def assignments(self):
@@ -230,8 +275,8 @@ def to_linear(out, semiring):
 
 
 def expected_array(expect, rows_idx):
-    """expect['table'][q][o][u] complex dyadic -> numpy complex (B, O, K) for the chosen rows."""
-    tab = expect["table"]
+    """table[q][o][u] complex dyadic -> numpy complex (B, O, K) for the chosen rows."""
+    tab = expect["table"] if isinstance(expect, dict) else expect
     return np.array(
         [[[nums.cfloat(e) for e in o] for o in tab[q]] for q in rows_idx], dtype=np.complex128
     )
